@@ -97,8 +97,10 @@ def binOp (op : String) (a b : Val) : Val :=
     match a, b with
     | .int x, .int y =>
       if op == "+" then .int (x + y) else if op == "-" then .int (x - y) else if op == "*" then .int (x * y)
-      else if op == "/" then (if y == 0 then .null else .int (x / y))
-      else if op == "%" then (if y == 0 then .null else .int (x % y))
+      -- integer division truncates toward zero and the remainder takes the dividend's sign, as in
+      -- SQL engines (and Kusto); cross-validated against SQLite (tools/sqlite_crosscheck.py)
+      else if op == "/" then (if y == 0 then .null else .int (Int.tdiv x y))
+      else if op == "%" then (if y == 0 then .null else .int (Int.tmod x y))
       else termOf (Bytes.ofString op) [a, b]
     | .str x, .str y => if op == "||" then .str (x ++ y) else termOf (Bytes.ofString op) [a, b]
     | _, _ => termOf (Bytes.ofString op) [a, b]
@@ -121,7 +123,11 @@ def evalS (group : List Env) (env : Env) : SExpr → Val
       -- aggregates over the group (rows passing the FILTER, if any)
       let noFilter := match filter with | .none_ => true | _ => false
       let rows := group.filter fun g => noFilter || evalS [] g filter == .bool true
-      if l == Bytes.ofString "count" then .int rows.length
+      if l == Bytes.ofString "count" then
+        -- count() / count(*) counts rows; count(x) counts the rows where x is not NULL
+        match args with
+        | .cons a .nil => .int ((rows.map fun g => evalS [] g a).filter (· != .null)).length
+        | _ => .int rows.length
       else
         match args with
         | .cons a .nil =>
